@@ -266,7 +266,7 @@ def post_go(ctx, cases, obs):
 def extra(ctx, obl, cases, obs):
     """the command through the built binary (cmd/*.go): binary = library entry point, and the option handling the command does itself"""
     n = 2 if ctx.tier == "quick" else 12
-    _cmd_state["binary_runs"] = cmdlayer.snps_layer(ctx, n)
+    _cmd_state["binary_runs"] = cmdlayer.snps_layer(ctx, n) + cmdlayer.threshold_layer(ctx)
 
 
 _cmd_state = {}
